@@ -349,6 +349,24 @@ def run(ctx, model_ok):
             lfail += 1
             f.update({"case": c, "signature": "unlisted", "harness": "c17_lines.py"})
             failures.append(f)
+    # process-wide import state while a worker imports: the finder installed by the main thread's context stays on sys.meta_path for everybody
+    mcases = [{"kind": k, "has_sys": h} for k in ("missing", "plain", "accepted") for h in (False, True)]
+    rcm, mres, mout = lib.impl_run("c17_meta.py", mcases, timeout=600)
+    if mres is None:
+        raise RuntimeError("implementation harness failed:\n" + mout[-3000:])
+    for c, im in zip(mcases, mres):
+        f = None
+        if "crash" in im or im.get("errors"):
+            f = {"what": "worker import harness failed: %s" % (im.get("crash") or im.get("errors")), "kind": "meta"}
+        elif not im["seen"] or not all(ok for _, ok in im["seen"]):
+            f = {"what": "while a worker thread imported %r, sys.meta_path (process-wide) did not contain the finder of the main thread's context: a main-thread "
+                         "import in that window is loaded uninstrumented" % (im["seen"][0][0] if im["seen"] else "?"), "observed": im["seen"], "kind": "meta"}
+        elif im["main_events"] != 2 or im["worker_events"] != 0:
+            f = {"what": "a module imported on the main thread after a worker's import delivered %d events (expected 2); the worker's import delivered %d (expected 0)"
+                         % (im["main_events"], im["worker_events"]), "kind": "meta"}
+        if f and len(failures) < 3:
+            f.update({"case": c, "signature": "unlisted", "harness": "c17_meta.py"})
+            failures.append(f)
     # nested emissions inside worker threads (handlers that run instrumented code): model/Reent.v with in_main = false
     from props import C16
     wcases = []
@@ -418,4 +436,10 @@ def replay(ctx, rep):
     if "tops" in case:
         from props import C16
         return C16.oracle_case(case, C16.run_impl([case])[0])
+    if f.get("harness") == "c17_meta.py":
+        rcm, mres, mout = lib.impl_run("c17_meta.py", [case], timeout=600)
+        im = (mres or [{"crash": "harness failed"}])[0]
+        if "crash" in im or im.get("errors") or not im.get("seen") or not all(ok for _, ok in im["seen"]) or im["main_events"] != 2 or im["worker_events"] != 0:
+            return {"what": "process-wide import state during a worker's import", "observed": im}
+        return None
     return fails_on_impl(case)
